@@ -301,3 +301,116 @@ pub fn run_random(seed: u64, count: u64) -> J {
         ("samples", J::Arr(vec![])),
     ])
 }
+
+// ------------------------------------------------------------------------------------------
+// values that are not equal to themselves (f64 NaN): "present in both with unequal values"
+// ------------------------------------------------------------------------------------------
+
+type FB = std::collections::BTreeMap<i64, f64>;
+
+fn nth_fmap(mut i: usize, nkeys: usize) -> FB {
+    let mut m = FB::new();
+    for k in 0..nkeys {
+        match i % 4 {
+            1 => {
+                m.insert(k as i64, 1.0);
+            }
+            2 => {
+                m.insert(k as i64, f64::NAN);
+            }
+            3 => {
+                m.insert(k as i64, 2.5);
+            }
+            _ => {}
+        }
+        i /= 4;
+    }
+    m
+}
+
+#[derive(Debug, Clone)]
+enum FD {
+    Left(f64),
+    Right(f64),
+    Unequal(f64, f64),
+}
+fn same(a: f64, b: f64) -> bool {
+    a.to_bits() == b.to_bits() || (a.is_nan() && b.is_nan())
+}
+fn fd_eq(a: &[(i64, FD)], b: &[(i64, FD)]) -> bool {
+    a.len() == b.len()
+        && a.iter().zip(b).all(|((k1, d1), (k2, d2))| {
+            k1 == k2
+                && match (d1, d2) {
+                    (FD::Left(x), FD::Left(y)) | (FD::Right(x), FD::Right(y)) => same(*x, *y),
+                    (FD::Unequal(a1, b1), FD::Unequal(a2, b2)) => same(*a1, *a2) && same(*b1, *b2),
+                    _ => false,
+                }
+        })
+}
+fn freference(a: &FB, b: &FB) -> Vec<(i64, FD)> {
+    let keys: BTreeSet<i64> = a.keys().chain(b.keys()).copied().collect();
+    let mut out = vec![];
+    for k in keys {
+        match (a.get(&k), b.get(&k)) {
+            (Some(x), None) => out.push((k, FD::Left(*x))),
+            (None, Some(y)) => out.push((k, FD::Right(*y))),
+            // unequal by the value type's own equality: NaN differs from everything, itself included
+            (Some(x), Some(y)) if x != y => out.push((k, FD::Unequal(*x, *y))),
+            _ => {}
+        }
+    }
+    out
+}
+fn fobserved<M: SymmetricFoldMap<i64, f64>>(a: &M, b: &M) -> Vec<(i64, FD)> {
+    a.symmetric_fold(b, vec![], |mut acc, (k, d)| {
+        acc.push((
+            *k,
+            match d {
+                DiffElement::Left(x) => FD::Left(*x),
+                DiffElement::Right(y) => FD::Right(*y),
+                DiffElement::Unequal(x, y) => FD::Unequal(*x, *y),
+            },
+        ));
+        acc
+    })
+}
+
+pub fn run_symfold_float() -> J {
+    let n = 64usize; // 3 keys x {absent, 1.0, NaN, 2.5}
+    let (mut evals, mut nontrivial) = (0u64, 0u64);
+    let mut violations = vec![];
+    for i in 0..n {
+        for j in 0..n {
+            let (a, b) = (nth_fmap(i, 3), nth_fmap(j, 3));
+            let r = freference(&a, &b);
+            let oa: OrdMap<i64, f64> = a.iter().map(|(k, v)| (*k, *v)).collect();
+            let ob: OrdMap<i64, f64> = b.iter().map(|(k, v)| (*k, *v)).collect();
+            for (name, got) in [
+                ("BTreeMap<f64>", fobserved(&a, &b)),
+                ("Rc<BTreeMap<f64>>", fobserved(&Rc::new(a.clone()), &Rc::new(b.clone()))),
+                ("OrdMap<f64>", fobserved(&oa, &ob)),
+            ] {
+                evals += 1;
+                if r.iter().any(|(_, d)| matches!(d, FD::Unequal(x, y) if x.is_nan() || y.is_nan())) {
+                    nontrivial += 1;
+                }
+                if !fd_eq(&got, &r) && violations.len() < 10 {
+                    violations.push(J::obj(vec![
+                        ("property", J::s("C18")),
+                        ("message", J::s(format!("symmetric_fold<{name}>({a:?}, {b:?}) visited {got:?}, expected {r:?}"))),
+                        ("argv", J::Arr(vec![J::s("symdiff"), J::s("fold-float")])),
+                    ]));
+                }
+            }
+        }
+    }
+    J::obj(vec![
+        ("workload", J::s("symdiff-fold-float")),
+        ("evaluations", J::Int(evals as i64)),
+        ("nontrivial", J::Int(nontrivial as i64)),
+        ("stats", J::obj(vec![("pairs_of_float_maps_enumerated", J::Int((n * n) as i64))])),
+        ("violations", J::Arr(violations)),
+        ("samples", J::Arr(vec![])),
+    ])
+}
